@@ -526,8 +526,8 @@ theorem fwdNode_nested_fails : ∀ (n : Node), PlainNode n → ∀ (e : Env), ru
     obtain ⟨rfl, rfl, rfl, hk⟩ := hp
     simp only [flatNode] at hr
     obtain ⟨err, h⟩ := fwdKids_nested_fails kids hk e hr
-    simp only [fwdNode, skips, Bool.false_and, Bool.false_eq_true, if_false, Option.isSome_none, h]
-    exact ⟨_, rfl⟩
+    refine ⟨err, ?_⟩
+    simp [fwdNode, skips, h]
 theorem fwdKids_nested_fails : ∀ (kids : List Node), PlainNodes kids → ∀ (e : Env), run (flatNodes kids) e = none →
     ∃ err, fwdKids false kids false { arg := e, exec := none } = .error err
   | [], _, e, hr => by simp [flatNodes, run] at hr
